@@ -105,6 +105,10 @@ func genRawValue(t *rapid.T) interface{} {
 		return rapid.Bool().Draw(t, "rawbool")
 	case 16:
 		return rapid.SampledFrom(strPool).Draw(t, "rawstr")
+	case 17:
+		// a type the documentation does not list for normalisation: the variable evaluates to the value
+		// that was bound, as it was bound (a float stays that float)
+		return rapid.SampledFrom([]float64{2, 2.5, 0, -1, 1e20, 9007199254740992, 0.1}).Draw(t, "rawfloat")
 	default:
 		return rapid.Int64Range(-100, 100).Draw(t, "smallint")
 	}
@@ -556,7 +560,7 @@ func equalNormalised(got, want interface{}) bool {
 
 var propC11 = Prop[C11Case]{
 	ID:    "C11",
-	Rule:  "registration histories: 1..40 (sometimes 100..126) names, a pre-populated key map with distinct keys from {-32768, -3..3, 250..260, 32760..32767, random int16, small}, then GetOrRegisterKey / RegVarAndOp batches / repeated requests / ExtendConf of a base config holding further names, in a drawn order, names sometimes those of keywords and operators (if, let, map, in, and ...), optionally undefined-variable mode with names left unregistered; bindings of every raw type the documentation lists (int, int8..int32, uint8..uint64, int64, []int, []int32, []int64, []string, time.Time, Duration, bool, string) at extremes. Oracle: after every step the key map is injective and no earlier assignment changed; (c_tuple v0 .. vn) and single-variable programs evaluate, through NewCtxFromVars (slice- or map-backed) and through the one-shot eval.Eval over the same layout, to the harness's own normalisation of the bound values. In undefined-variable mode one program is compiled before the registration steps and evaluated after them. Non-trivial = the final layout has a key < 0, = 0, = 255, = 256 or > 256, or GetOrRegisterKey had to fill a gap; distinct by the whole history",
+	Rule:  "registration histories: 1..40 (sometimes 100..126) names, a pre-populated key map with distinct keys from {-32768, -3..3, 250..260, 32760..32767, random int16, small}, then GetOrRegisterKey / RegVarAndOp batches / repeated requests / ExtendConf of a base config holding further names, in a drawn order, names sometimes those of keywords and operators (if, let, map, in, and ...), optionally undefined-variable mode with names left unregistered; bindings of every raw type the documentation lists (int, int8..int32, uint8..uint64, int64, []int, []int32, []int64, []string, time.Time, Duration, bool, string) at extremes, and float64 values, which no rule normalises (they come back as they were bound). Oracle: after every step the key map is injective and no earlier assignment changed; (c_tuple v0 .. vn) and single-variable programs evaluate, through NewCtxFromVars (slice- or map-backed) and through the one-shot eval.Eval over the same layout, to the harness's own normalisation of the bound values. In undefined-variable mode one program is compiled before the registration steps and evaluated after them. Non-trivial = the final layout has a key < 0, = 0, = 255, = 256 or > 256, or GetOrRegisterKey had to fill a gap; distinct by the whole history",
 	Gen:   genC11,
 	Check: checkC11,
 }
